@@ -170,6 +170,31 @@ theorem detected_defining_genes (id : Nat) (loc core : Loc) (product : String) (
         product ∈ x.coreProducts :=
   mem_mkProto_defs
 
+/-- … where "of its own product" is **equality of product names** (`core.product == self.product`),
+    not containment of one name in the other: a CDS none of whose CORE gene functions carries exactly
+    the protocluster's product is not one of its defining genes, and two protoclusters whose only
+    common CORE gene belongs to the product of one of them do not share a defining gene … -/
+theorem defining_gene_needs_the_exact_product (id : Nat) (loc core : Loc) (product : String) (sideloaded : Bool)
+    (genes : List Gene) (x : Gene) (hx : ∀ q, q ∈ x.coreProducts → q ≠ product)
+    (hid : ∀ y, y ∈ genes → y.id = x.id → y = x) :
+    x.id ∉ (mkProto id loc core product sideloaded genes).defs := by
+  cases sideloaded
+  · intro h
+    obtain ⟨y, hy, e, _, _, hp⟩ := mem_mkProto_defs.1 h
+    rw [hid y hy e] at hp
+    exact hx product hp rfl
+  · simp [mkProto, definitionCdses]
+
+/-- the seeded layout: an `NRPS` protocluster and an `NRPS-like` one with overlapping cores; the `NRPS`
+    core gene lies inside both cores but defines only the `NRPS` protocluster, the `NRPS-like` gene lies
+    only in the second core: no shared defining gene, one INTERLEAVED candidate -/
+example :
+    let genes : List Gene := [⟨0, .simple ⟨1000, 1300, .fwd⟩, ["NRPS"]⟩, ⟨1, .simple ⟨1500, 1800, .fwd⟩, ["NRPS-like"]⟩]
+    let a := mkProto 0 (.simple ⟨500, 1900, .fwd⟩) (.simple ⟨1000, 1400, .fwd⟩) "NRPS" false genes
+    let b := mkProto 1 (.simple ⟨400, 2300, .fwd⟩) (.simple ⟨900, 1800, .fwd⟩) "NRPS-like" false genes
+    a.defs = [0] ∧ b.defs = [1] ∧ shares a b = false ∧
+    summary (formation [a, b] none) = some [(.interleaved, [1, 0])] := by decide +kernel
+
 /-- … and a protocluster without defining genes (every sideloaded one) is in a chemical hybrid only
     as a protocluster whose core lies inside the connected core of a gene-sharing class it does not
     belong to — never through a "shared gene" (any record).  This is what reading the stored set
